@@ -5,6 +5,24 @@ From Mamba Require Import Invariants.Graph Invariants.DistSpec Invariants.DistRe
   Invariants.DistRefProofs Invariants.DistModel Invariants.ConnModel.
 Import ListNotations.
 
+Lemma nodup_app_r : forall (l1 l2 : list nat), NoDup (l1 ++ l2) -> NoDup l2.
+Proof. induction l1 as [|a l1 IH]; intros l2 H; [exact H|]. inversion H; subst. apply IH. assumption. Qed.
+
+Lemma nodup_app_l : forall (l1 l2 : list nat), NoDup (l1 ++ l2) -> NoDup l1.
+Proof.
+  induction l1 as [|a l1 IH]; intros l2 H; [constructor|].
+  inversion H as [|? ? Hn Hd]; subst. constructor.
+  - intro Hin. apply Hn. apply in_app_iff. left; exact Hin.
+  - apply (IH l2). assumption.
+Qed.
+
+Lemma nodup_app_disj : forall (l1 l2 : list nat) x, NoDup (l1 ++ l2) -> In x l1 -> In x l2 -> False.
+Proof.
+  induction l1 as [|a l1 IH]; intros l2 x H H1 H2; [destruct H1|].
+  inversion H as [|? ? Hn Hd]; subst.
+  destruct H1 as [-> | H1]; [apply Hn; apply in_app_iff; right; exact H2 | apply (IH l2 x); assumption].
+Qed.
+
 (* ------------------------------------------------------------------ the swap-remove step *)
 
 Lemma upd_app_mid : forall (A B : list nat) w x, upd (A ++ w :: B) (length A) x = A ++ x :: B.
@@ -21,11 +39,15 @@ Proof.
   induction l as [|a l IH]; intro H; [contradiction|].
   destruct l as [|b l']; [reflexivity|].
   replace (length (a :: b :: l') - 1) with (S (length (b :: l') - 1)) by (simpl; lia).
-  simpl nth_error. rewrite IH by discriminate. reflexivity.
+  change (nth_error (a :: b :: l') (S (length (b :: l') - 1))) with (nth_error (b :: l') (length (b :: l') - 1)).
+  rewrite IH by discriminate. reflexivity.
 Qed.
 
 Lemma last_app_cons : forall (A B : list nat) w, last (A ++ w :: B) 0 = last (w :: B) 0.
-Proof. intros. rewrite last_app by discriminate. reflexivity. Qed.
+Proof.
+  induction A as [|a A IH]; intros B w; [reflexivity|].
+  simpl app. rewrite <- (IH B w). destruct (A ++ w :: B) eqn:E; [destruct A; discriminate | reflexivity].
+Qed.
 
 (* the slice after removing position |A| *)
 Definition swapped (B : list nat) : list nat :=
@@ -39,30 +61,22 @@ Proof.
   change (last (w :: b :: B') 0) with (last (b :: B') 0). reflexivity.
 Qed.
 
+Lemma swapped_perm : forall B, Permutation (swapped B) B.
+Proof.
+  intros [|b B']; [constructor|]. unfold swapped.
+  assert (Hne : b :: B' <> []) by discriminate.
+  pose proof (app_removelast_last 0 Hne) as E.
+  eapply Permutation_trans; [apply Permutation_cons_append|].
+  rewrite <- E. apply Permutation_refl.
+Qed.
+
 Lemma swapped_In : forall B x, In x (swapped B) <-> In x B.
 Proof.
-  intros B x. destruct B as [|b B']; [reflexivity|]. unfold swapped.
-  assert (Hne : b :: B' <> []) by discriminate.
-  pose proof (app_removelast_last 0 Hne) as H. rewrite H at 3.
-  rewrite in_app_iff. simpl. tauto.
+  intros B x. split; apply Permutation_in; [|apply Permutation_sym]; apply swapped_perm.
 Qed.
 
 Lemma swapped_length : forall B, length (swapped B) = length B.
-Proof.
-  intros [|b B']; [reflexivity|]. unfold swapped.
-  assert (Hne : b :: B' <> []) by discriminate.
-  pose proof (app_removelast_last 0 Hne) as H. rewrite H at 2. rewrite app_length. simpl. lia.
-Qed.
-
-Lemma swapped_NoDup : forall B, NoDup B -> NoDup (swapped B).
-Proof.
-  intros [|b B'] H; [constructor|]. unfold swapped.
-  assert (Hne : b :: B' <> []) by discriminate.
-  pose proof (app_removelast_last 0 Hne) as E. rewrite E in H.
-  apply NoDup_app_remove_l in H as H1.
-  apply Permutation_NoDup with (l := removelast (b :: B') ++ [last (b :: B') 0]); [|exact H].
-  apply Permutation_sym, Permutation_cons_append.
-Qed.
+Proof. intro B. apply Permutation_length, swapped_perm. Qed.
 
 (* ------------------------------------------------------------------ the search *)
 
@@ -72,13 +86,13 @@ Hypothesis Hwf : wf g.
 Variable v0 : nat.
 (* the universe: the vertices not removed by earlier searches; closed under adjacency *)
 Variable U : list nat.
-Hypothesis HU : forall x, In x U -> x < gn g.
 Hypothesis HUclosed : forall x y, In x U -> gadj g x y = true -> In y U.
 
-(* [cur] = vertices popped whose scan is not finished (none or one) *)
+(* [cur] = the vertex popped whose scan is not finished (none or one) *)
 Record sinv (unseen toCheck seen cur : list nat) : Prop := {
   s_nodup : NoDup (unseen ++ seen);
   s_univ : forall x, In x U <-> In x unseen \/ In x seen;
+  s_root : In v0 seen;
   s_reach : forall x, In x seen -> reach g v0 x;
   s_stack : forall x, In x toCheck -> In x seen;
   s_closed : forall x y, In x seen -> ~ In x toCheck -> ~ In x cur -> gadj g x y = true -> In y seen
@@ -102,57 +116,299 @@ Proof.
     + apply (s_closed0 x y Hx Hnt); [|exact Hxy]. intros [H | []]. congruence.
   - destruct (exists_last (l := A)) as [A' [w EA]]; [intro; subst; discriminate|]. subst A.
     rewrite app_length in Hlen. simpl in Hlen. assert (Hl' : length A' = i) by lia.
-    rewrite <- app_assoc. simpl app.
+    rewrite <- app_assoc in *. simpl app in *.
     simpl cc_scan. rewrite <- Hl'. rewrite nth_error_app_mid.
     destruct (gadj g u w) eqn:Ea.
     + rewrite nth_error_last by (destruct A'; discriminate).
       rewrite last_app_cons, swap_remove.
-      rewrite <- app_assoc in Hinv. simpl app in Hinv.
-      assert (Hnd : NoDup ((A' ++ w :: B) ++ seen)) by apply (s_nodup _ _ _ _ Hinv).
-      assert (Hw : ~ In w A' /\ ~ In w B /\ ~ In w seen).
-      { rewrite <- app_assoc in Hnd. apply NoDup_remove_2 in Hnd.
-        rewrite !in_app_iff in Hnd. tauto. }
+      pose proof (s_nodup _ _ _ _ Hinv) as Hnd.
+      assert (Hperm : Permutation ((A' ++ w :: B) ++ seen) ((A' ++ swapped B) ++ seen ++ [w])).
+      { rewrite <- !app_assoc. apply Permutation_app_head. simpl.
+        eapply Permutation_trans; [apply Permutation_cons_append|].
+        rewrite <- app_assoc. apply Permutation_app_tail. apply Permutation_sym, swapped_perm. }
+      assert (HwU : forall x, In x (A' ++ w :: B) <-> x = w \/ In x (A' ++ swapped B)).
+      { intro x. rewrite !in_app_iff, swapped_In. simpl. intuition. }
+      assert (Hwn : ~ In w seen).
+      { intro H. rewrite <- app_assoc in Hnd. apply NoDup_remove_2 in Hnd. apply Hnd.
+        rewrite !in_app_iff. tauto. }
       destruct (IH A' (swapped B) (w :: toCheck) (seen ++ [w]) Hl') as [un' [tc' [sn' [Hs [Hi Hlen']]]]].
       * constructor.
-        -- (* NoDup *)
-           rewrite <- app_assoc in Hnd. apply NoDup_remove_1 in Hnd.
-           rewrite <- app_assoc.
-           assert (Hp : Permutation (A' ++ swapped B ++ seen ++ [w]) (w :: A' ++ swapped B ++ seen)).
-           { rewrite (app_assoc (swapped B)), app_assoc. apply Permutation_sym, Permutation_cons_append. }
-           apply (Permutation_NoDup (Permutation_sym Hp)).
-           constructor.
-           ++ rewrite !in_app_iff, swapped_In. tauto.
-           ++ (* replace B by swapped B inside a NoDup list *)
-              apply NoDup_app_remove_l in Hnd as HBs.
-              assert (HA' : NoDup A') by (apply NoDup_app_remove_r in Hnd; exact Hnd).
-              clear - Hnd HBs HA'.
-              induction A' as [|a A' IHA]; simpl in *.
-              ** assert (Hd : NoDup B) by (apply NoDup_app_remove_r in Hnd; exact Hnd).
-                 assert (Hsn : NoDup seen) by (apply NoDup_app_remove_l in Hnd; exact Hnd).
-                 clear HBs HA'.
-                 assert (Hdis : forall x, In x B -> ~ In x seen).
-                 { intros x Hx Hs. revert Hnd Hx Hs. clear. induction B as [|b B IH]; intros Hnd Hx Hs; [destruct Hx|].
-                   simpl in Hnd. inversion Hnd; subst. destruct Hx as [-> | Hx].
-                   - apply H1. apply in_app_iff. right; exact Hs.
-                   - apply IH; assumption. }
-                 pose proof (swapped_NoDup B Hd) as Hsw.
-                 revert Hsw. generalize (swapped_In B). generalize (swapped B). intros S HS Hsw.
-                 induction Hsw as [|s S Hs Hsw IHs]; simpl; [exact Hsn|].
-                 constructor.
-                 --- rewrite in_app_iff. intros [H | H]; [contradiction|].
-                     apply (Hdis s); [apply HS; left; reflexivity | exact H].
-                 --- apply IHs. intros x. split; intro H.
-                     +++ apply HS. right. exact H.
-                     +++ admit.
-              ** admit.
-        -- admit.
-        -- admit.
-        -- admit.
-        -- admit.
-      * admit.
-      * admit.
-      * admit.
-    + admit.
-Abort.
+        -- apply (Permutation_NoDup Hperm Hnd).
+        -- intro x. rewrite (s_univ _ _ _ _ Hinv x), HwU, !in_app_iff. simpl.
+           assert (x = w <-> w = x) by (split; congruence). tauto.
+        -- apply in_app_iff. left. apply (s_root _ _ _ _ Hinv).
+        -- intros x Hx. apply in_app_iff in Hx. destruct Hx as [Hx | [<- | []]].
+           ++ apply (s_reach _ _ _ _ Hinv x Hx).
+           ++ eapply reach_trans; [apply (s_reach _ _ _ _ Hinv u Hu)|].
+              exists 1. eapply walk_snoc; [apply walk_nil | exact Ea].
+        -- intros x [<- | Hx]; apply in_app_iff; [right; left; reflexivity | left].
+           apply (s_stack _ _ _ _ Hinv x Hx).
+        -- intros x y Hx Hnt Hnc Hxy. apply in_app_iff. left.
+           apply in_app_iff in Hx. destruct Hx as [Hx | [<- | []]].
+           ++ apply (s_closed _ _ _ _ Hinv x y Hx); try assumption. intro H. apply Hnt. right; exact H.
+           ++ exfalso. apply Hnt. left; reflexivity.
+      * apply in_app_iff. left; exact Hu.
+      * intros x Hx. apply HB. apply swapped_In. exact Hx.
+      * exists un', tc', sn'. split; [rewrite Hl'; exact Hs|]. split; [exact Hi|].
+        rewrite Hlen'. rewrite !app_length, swapped_length. simpl. lia.
+    + rewrite Hl'. apply (IH A' (w :: B) toCheck seen Hl' Hinv Hu).
+      intros x [<- | Hx]; [exact Ea | apply HB; exact Hx].
+Qed.
+
+Lemma loop_correct : forall fuel unseen toCheck seen,
+  sinv unseen toCheck seen [] -> length unseen + length toCheck <= fuel ->
+  exists un' sn', cc_loop g fuel unseen toCheck seen = Done (un', sn') /\ sinv un' [] sn' [].
+Proof.
+  induction fuel as [|f IH]; intros unseen toCheck seen Hinv Hf.
+  - destruct toCheck as [|u tc]; [|simpl in Hf; lia]. exists unseen, seen. split; [reflexivity | exact Hinv].
+  - destruct toCheck as [|u tc]; [exists unseen, seen; split; [reflexivity | exact Hinv]|].
+    simpl cc_loop.
+    assert (Hu : In u seen) by (apply (s_stack _ _ _ _ Hinv); left; reflexivity).
+    assert (Hinv' : sinv (unseen ++ []) tc seen [u]).
+    { rewrite app_nil_r. destruct Hinv. constructor; try assumption.
+      - intros x Hx. apply s_stack0. right; exact Hx.
+      - intros x y Hx Hnt Hnc Hxy. apply (s_closed0 x y Hx); [|intros []|exact Hxy].
+        intros [<- | H]; [apply Hnc; left; reflexivity | contradiction]. }
+    destruct (scan_correct u (length unseen) unseen [] tc seen eq_refl Hinv' Hu ltac:(intros x []))
+      as [un' [tc' [sn' [Hs [Hi Hlen]]]]].
+    rewrite app_nil_r in Hs, Hlen. rewrite Hs.
+    apply IH; [exact Hi|]. simpl in Hf. lia.
+Qed.
+
+(* at the end [seen] is the class of v0 *)
+Lemma final_class : forall un sn, sinv un [] sn [] -> forall x, In x sn <-> reach g v0 x.
+Proof.
+  intros un sn Hinv x. split; [apply (s_reach _ _ _ _ Hinv)|].
+  intros [m Hw].
+  assert (Hgen : forall a b m, walk g a b m -> a = v0 -> In b sn).
+  { intros a b m0 H. induction H as [|a c b m0 H IHw Ha]; intro E.
+    - subst. apply (s_root _ _ _ _ Hinv).
+    - apply (s_closed _ _ _ _ Hinv c b (IHw E)); [intros [] | intros [] | exact Ha]. }
+  exact (Hgen _ _ _ Hw eq_refl).
+Qed.
 
 End Search.
+
+(* ------------------------------------------------------------------ sorting *)
+
+Lemma insert_In : forall x l y, In y (insert x l) <-> y = x \/ In y l.
+Proof.
+  intros x l y. induction l as [|a l IH]; simpl; [intuition|].
+  destruct (x <=? a); simpl; [intuition|]. rewrite IH. intuition.
+Qed.
+
+Lemma isort_In : forall l y, In y (isort l) <-> In y l.
+Proof.
+  induction l as [|a l IH]; intro y; simpl; [tauto|]. rewrite insert_In, IH. intuition.
+Qed.
+
+Lemma insert_sorted : forall x l, StronglySorted lt l -> ~ In x l -> StronglySorted lt (insert x l).
+Proof.
+  intros x l Hs Hn. induction Hs as [|a l Hs IH Hall]; simpl; [constructor; constructor|].
+  destruct (x <=? a) eqn:E.
+  - apply Nat.leb_le in E. assert (x < a) by (assert (x <> a) by (intro; subst; apply Hn; left; reflexivity); lia).
+    constructor; [constructor; assumption|]. constructor; [assumption|].
+    rewrite Forall_forall in *. intros y Hy. specialize (Hall y Hy). lia.
+  - apply Nat.leb_gt in E. constructor.
+    + apply IH. intro H. apply Hn. right; exact H.
+    + rewrite Forall_forall in *. intros y Hy. apply insert_In in Hy. destruct Hy as [-> | Hy]; [lia | apply Hall; exact Hy].
+Qed.
+
+Lemma isort_sorted : forall l, NoDup l -> StronglySorted lt (isort l).
+Proof.
+  induction l as [|a l IH]; intro H; simpl; [constructor|]. inversion H; subst.
+  apply insert_sorted; [apply IH; assumption|]. rewrite isort_In. assumption.
+Qed.
+
+Lemma sorted_lt_ext : forall l1 l2, StronglySorted lt l1 -> StronglySorted lt l2 ->
+  (forall x, In x l1 <-> In x l2) -> l1 = l2.
+Proof.
+  induction l1 as [|a l1 IH]; intros l2 H1 H2 Hext.
+  - destruct l2 as [|b l2]; [reflexivity|]. exfalso. apply (Hext b). left; reflexivity.
+  - destruct l2 as [|b l2]; [exfalso; apply (Hext a); left; reflexivity|].
+    inversion H1 as [|? ? Hs1 Ha]; subst. inversion H2 as [|? ? Hs2 Hb]; subst.
+    rewrite Forall_forall in Ha, Hb.
+    assert (a = b).
+    { assert (Hab : In a (b :: l2)) by (apply Hext; left; reflexivity).
+      assert (Hba : In b (a :: l1)) by (apply Hext; left; reflexivity).
+      destruct Hab as [-> | Hab]; [reflexivity|]. destruct Hba as [-> | Hba]; [reflexivity|].
+      apply Ha in Hba. apply Hb in Hab. lia. }
+    subst b. f_equal. apply IH; try assumption.
+    intro x. split; intro Hx.
+    + assert (Hi : In x (a :: l2)) by (apply Hext; right; exact Hx).
+      destruct Hi as [<- | Hi]; [|exact Hi]. apply Ha in Hx. lia.
+    + assert (Hi : In x (a :: l1)) by (apply Hext; right; exact Hx).
+      destruct Hi as [<- | Hi]; [|exact Hi]. apply Hb in Hx. lia.
+Qed.
+
+(* the sorted [seen] of a finished search over a universe of vertices is the reference component *)
+Lemma sorted_seen_comp : forall g v U un sn, wf g -> (forall x, In x U -> x < gn g) ->
+  sinv g v U un [] sn [] -> isort sn = comp_ref g v.
+Proof.
+  intros g v U un sn Hwf HU Hinv. apply sorted_lt_ext.
+  - apply isort_sorted. pose proof (s_nodup _ _ _ _ _ _ _ Hinv) as H. apply nodup_app_r in H. exact H.
+  - apply comp_ref_sorted.
+  - intro x. rewrite isort_In, (comp_ref_In g v x Hwf). split.
+    + intro Hx. split.
+      * apply HU. apply (s_univ _ _ _ _ _ _ _ Hinv). right; exact Hx.
+      * apply (s_reach _ _ _ _ _ _ _ Hinv x Hx).
+    + intros [_ Hr]. apply (final_class g v U un sn Hinv). exact Hr.
+Qed.
+
+(* ------------------------------------------------------------------ ConnectedComponent *)
+
+Lemma seq_split_at : forall n v, v < n -> seq 0 n = seq 0 v ++ v :: seq (S v) (n - S v).
+Proof.
+  intros n v H. remember (n - S v) as k eqn:Ek.
+  assert (E : n = v + S k) by lia. rewrite E. rewrite seq_app. reflexivity.
+Qed.
+
+Lemma adj_closed_vertices : forall g, wf g ->
+  forall x y, In x (vertices g) -> gadj g x y = true -> In y (vertices g).
+Proof. intros g [Hr _] x y _ H. apply in_vertices. apply Hr in H. tauto. Qed.
+
+Theorem connected_component_go_correct : forall g v, wf g -> v < gn g ->
+  connected_component_go g v = Done (comp_ref g v).
+Proof.
+  intros g v Hwf Hv. unfold connected_component_go.
+  assert (En : (gn g =? 0) = false) by (apply Nat.eqb_neq; lia). rewrite En.
+  unfold vertices. rewrite (seq_split_at (gn g) v Hv).
+  set (A := seq 0 v). set (B := seq (S v) (gn g - S v)).
+  assert (HlA : length A = v) by (unfold A; apply seq_length).
+  rewrite nth_error_last by (destruct A; discriminate).
+  rewrite <- HlA at 2. rewrite nth_error_app_mid.
+  rewrite <- HlA at 2. rewrite last_app_cons, swap_remove.
+  assert (Hperm : Permutation (A ++ v :: B) ((A ++ swapped B) ++ [v])).
+  { eapply Permutation_trans; [apply Permutation_sym, Permutation_middle|].
+    eapply Permutation_trans; [|apply Permutation_cons_append].
+    constructor. apply Permutation_app_head. apply Permutation_sym, swapped_perm. }
+  assert (Hvs : vertices g = A ++ v :: B) by (unfold vertices; apply seq_split_at; exact Hv).
+  assert (Hinv : sinv g v (vertices g) (A ++ swapped B) [v] [v] []).
+  { constructor.
+    - apply (Permutation_NoDup Hperm). rewrite <- Hvs. apply seq_NoDup.
+    - intro x. rewrite Hvs. rewrite <- in_app_iff. split; apply Permutation_in; [|apply Permutation_sym]; exact Hperm.
+    - left; reflexivity.
+    - intros x [<- | []]. apply reach_refl.
+    - intros x H; exact H.
+    - intros x y Hx Hn. contradiction. }
+  destruct (loop_correct g v (vertices g) (adj_closed_vertices g Hwf) (S (gn g)) _ _ _ Hinv)
+    as [un' [sn' [Hl Hfin]]].
+  { pose proof (Permutation_length Hperm) as HL. rewrite !app_length in HL. cbn [length] in HL.
+    assert (HN : length (A ++ v :: B) = gn g) by (rewrite <- Hvs; unfold vertices; apply seq_length).
+    rewrite app_length in HN. cbn [length] in HN. rewrite app_length. cbn [length]. lia. }
+  rewrite Hl. f_equal.
+  apply (sorted_seen_comp g v (vertices g) un' sn' Hwf); [|exact Hfin].
+  intros x Hx. apply in_vertices. exact Hx.
+Qed.
+
+(* ------------------------------------------------------------------ ConnectedComponents *)
+
+Record oinv (g : graph) (unseen : list nat) (acc : list (list nat)) : Prop := {
+  o_nodup : NoDup unseen;
+  o_range : forall x, In x unseen -> x < gn g;
+  o_closed : forall x y, In x unseen -> gadj g x y = true -> In y unseen;
+  o_comps : forall c, In c acc -> exists v, v < gn g /\ c = comp_ref g v /\ forall x, In x c -> ~ In x unseen;
+  o_cover : forall x, x < gn g -> In x unseen \/ exists c, In c acc /\ In x c;
+  o_acc : NoDup acc
+}.
+
+Lemma ccs_loop_correct : forall g, wf g -> forall fuel unseen acc,
+  oinv g unseen acc -> length unseen <= fuel ->
+  exists cs, ccs_loop g fuel unseen acc = Done cs /\ oinv g [] cs.
+Proof.
+  intros g Hwf. induction fuel as [|f IH]; intros unseen acc Hinv Hf.
+  - destruct unseen; [|simpl in Hf; lia]. exists acc. split; [reflexivity | exact Hinv].
+  - destruct unseen as [|a t] eqn:EU; [exists acc; split; [reflexivity | exact Hinv]|].
+    rewrite <- EU in *. assert (Hne : unseen <> []) by (rewrite EU; discriminate).
+    replace (ccs_loop g (S f) unseen acc) with
+      (match cc_loop g (S (gn g)) (removelast unseen) [last unseen 0] [last unseen 0] with
+       | Done (un', seen) => ccs_loop g f un' (acc ++ [isort seen])
+       | Panic => Panic | Fuel => Fuel end) by (rewrite EU; reflexivity).
+    clear EU a t.
+    set (v := last unseen 0). set (un := removelast unseen).
+    assert (E : unseen = un ++ [v]) by (apply app_removelast_last; exact Hne).
+    assert (Hsinv : sinv g v unseen un [v] [v] []).
+    { constructor.
+      - rewrite <- E. apply (o_nodup _ _ _ Hinv).
+      - intro x. rewrite E at 1. apply in_app_iff.
+      - left; reflexivity.
+      - intros x [<- | []]. apply reach_refl.
+      - intros x H; exact H.
+      - intros x y Hx Hn. contradiction. }
+    assert (Hlen : length unseen <= gn g).
+    { rewrite <- (seq_length (gn g) 0). apply NoDup_incl_length; [apply (o_nodup _ _ _ Hinv)|].
+      intros x Hx. apply in_seq. pose proof (o_range _ _ _ Hinv x Hx). lia. }
+    destruct (loop_correct g v unseen (o_closed _ _ _ Hinv) (S (gn g)) un [v] [v] Hsinv)
+      as [un' [sn [Hl Hfin]]].
+    { rewrite E, app_length in Hlen. simpl in *. lia. }
+    rewrite Hl.
+    assert (Hc : isort sn = comp_ref g v) by (apply (sorted_seen_comp g v unseen un' sn Hwf (o_range _ _ _ Hinv) Hfin)).
+    assert (Hvu : In v unseen) by (rewrite E; apply in_app_iff; right; left; reflexivity).
+    assert (Hsub : forall x, In x un' -> In x unseen) by (intros x Hx; apply (s_univ _ _ _ _ _ _ _ Hfin); left; exact Hx).
+    assert (Hdisj : forall x, In x un' -> In x sn -> False) by (intros x; apply nodup_app_disj; apply (s_nodup _ _ _ _ _ _ _ Hfin)).
+    apply IH.
+    + constructor.
+      * apply (nodup_app_l _ _ (s_nodup _ _ _ _ _ _ _ Hfin)).
+      * intros x Hx. apply (o_range _ _ _ Hinv). apply Hsub. exact Hx.
+      * intros x y Hx Hxy.
+        assert (HyU : In y unseen) by (apply (o_closed _ _ _ Hinv x y); [apply Hsub; exact Hx | exact Hxy]).
+        apply (s_univ _ _ _ _ _ _ _ Hfin) in HyU. destruct HyU as [Hy | Hy]; [exact Hy|]. exfalso.
+        apply (Hdisj x Hx). apply (final_class g v unseen un' sn Hfin).
+        eapply reach_trans; [apply (s_reach _ _ _ _ _ _ _ Hfin y Hy)|].
+        exists 1. eapply walk_snoc; [apply walk_nil|]. destruct Hwf as [_ [Hs _]]. rewrite Hs. exact Hxy.
+      * intros c Hcin. apply in_app_iff in Hcin. destruct Hcin as [Hcin | [<- | []]].
+        -- destruct (o_comps _ _ _ Hinv c Hcin) as [w [Hw [Hcw Hnot]]]. exists w. split; [exact Hw|]. split; [exact Hcw|].
+           intros x Hx Hxu. apply (Hnot x Hx). apply Hsub. exact Hxu.
+        -- exists v. split; [apply (o_range _ _ _ Hinv); exact Hvu|]. split; [exact Hc|].
+           intros x Hx Hxu. apply isort_In in Hx. exact (Hdisj x Hxu Hx).
+      * intros x Hx. destruct (o_cover _ _ _ Hinv x Hx) as [Hxu | [c [Hcin Hxc]]].
+        -- apply (s_univ _ _ _ _ _ _ _ Hfin) in Hxu. destruct Hxu as [H | H]; [left; exact H|].
+           right. exists (isort sn). split; [apply in_app_iff; right; left; reflexivity | apply isort_In; exact H].
+        -- right. exists c. split; [apply in_app_iff; left; exact Hcin | exact Hxc].
+      * apply (Permutation_NoDup (Permutation_cons_append acc (isort sn))). constructor; [|apply (o_acc _ _ _ Hinv)].
+        intro Hin. destruct (o_comps _ _ _ Hinv _ Hin) as [w [_ [_ Hnot]]].
+        apply (Hnot v); [|exact Hvu]. apply isort_In. apply (s_root _ _ _ _ _ _ _ Hfin).
+    + assert (length un' <= length un).
+      { apply NoDup_incl_length; [apply (nodup_app_l _ _ (s_nodup _ _ _ _ _ _ _ Hfin))|].
+        intros x Hx. pose proof (Hsub x Hx) as Hxu. rewrite E in Hxu. apply in_app_iff in Hxu.
+        destruct Hxu as [H | [<- | []]]; [exact H|]. exfalso. apply (Hdisj v Hx). apply (s_root _ _ _ _ _ _ _ Hfin). }
+      rewrite E, app_length in Hf. simpl in Hf. lia.
+Qed.
+
+(* ConnectedComponents returns exactly the reference components, each once (in the order
+   they are found, which the property leaves open) *)
+Theorem connected_components_go_correct : forall g, wf g ->
+  exists cs, connected_components_go g = Done cs /\ NoDup cs /\
+    forall c, In c cs <-> In c (comps_ref g).
+Proof.
+  intros g Hwf. unfold connected_components_go.
+  assert (Hfinal : forall cs, oinv g [] cs -> NoDup cs /\ forall c, In c cs <-> In c (comps_ref g)).
+  { intros cs Ho. split; [apply (o_acc _ _ _ Ho)|]. intro c. unfold comps_ref. rewrite in_map_iff. split.
+    - intro Hc. destruct (o_comps _ _ _ Ho c Hc) as [v [Hv [-> _]]].
+      destruct (least_exists g v Hwf) as [m [Hm [Hr Hl]]]. exists m. split.
+      + symmetry. apply comp_ref_class; assumption.
+      + apply filter_In. split; [apply in_vertices; lia | exact Hl].
+    - intros [m [<- Hm]]. apply filter_In in Hm. destruct Hm as [Hm _]. apply in_vertices in Hm.
+      destruct (o_cover _ _ _ Ho m Hm) as [[] | [c [Hc Hmc]]].
+      destruct (o_comps _ _ _ Ho c Hc) as [v [Hv [Hcv _]]]. subst c.
+      apply (comp_ref_In g v m Hwf) in Hmc. destruct Hmc as [_ Hr].
+      rewrite <- (comp_ref_class g v m Hwf Hr). exact Hc. }
+  destruct (gn g =? 0) eqn:E0.
+  - apply Nat.eqb_eq in E0. exists []. split; [reflexivity|]. split; [constructor|].
+    intro c. unfold comps_ref, vertices. rewrite E0. simpl. tauto.
+  - destruct (gn g =? 1) eqn:E1.
+    + apply Nat.eqb_eq in E1. exists [[0]]. split; [reflexivity|]. split; [constructor; [intros [] | constructor]|].
+      intro c. unfold comps_ref, comp_ref, vertices. rewrite E1. simpl.
+      assert (Hr : reach_ref g 0 0 = true) by (apply reach_ref_iff; [exact Hwf | apply reach_refl]).
+      rewrite Hr. simpl. tauto.
+    + destruct (ccs_loop_correct g Hwf (gn g) (vertices g) []) as [cs [Hcs Ho]].
+      * constructor.
+        -- apply seq_NoDup.
+        -- intros x Hx. apply in_vertices. exact Hx.
+        -- apply adj_closed_vertices. exact Hwf.
+        -- intros c [].
+        -- intros x Hx. left. apply in_vertices. exact Hx.
+        -- constructor.
+      * unfold vertices. rewrite seq_length. lia.
+      * exists cs. split; [exact Hcs | apply Hfinal; exact Ho].
+Qed.
